@@ -67,6 +67,9 @@ pub fn replay_case<H: HB>(c: &Case) -> Result<(), String> {
             return crate::post::from_iter_differential::<H>(c.double, &c.universe, seq, true).map(|_| ()).map_err(|e| e.1);
         }
     }
+    if c.probe.as_deref() == Some("cost-grid") {
+        return crate::cost::replay_grid(c);
+    }
     if c.probe.as_deref() == Some("fault-trail") {
         return crate::e3::replay_trail::<H>("C10", c);
     }
